@@ -496,7 +496,7 @@ func gen(r *hx.Rand, tier string) []json.RawMessage {
 	add(input{Par: false, Prog: []string{"sched", "port", "now"}, Reqs: []string{"inspect", "progress", "buffers", "state"}, Events: 15000, Spin: 1000})
 	n := 1
 	if tier == "thorough" {
-		n = 40
+		n = 16
 	}
 	for i := 0; i < n; i++ {
 		in := input{Par: r.Bool(), Spin: r.Range(500, 2000)}
